@@ -1,4 +1,143 @@
+/-
+  Properties/C01.lean — facts about the reference semantics that C01's statement names: placement of the
+  equation elements, broadcasting of a scalar Ode right-hand side, dependence on the parameters only through
+  the values passed at the call, selection semantics, time-series interpolation and hold.
+  (That the generated code computes these values is tied by the differential runs of the check.)
+-/
 import SolverzModel.Core.Lang
+import SolverzModel.Core.TimeSeries
+import SolverzModel.Proofs.Vars
+import SolverzModel.Proofs.Mass
+import Mathlib.Tactic.Linarith
+import Mathlib.Tactic.FieldSimp
+import Mathlib.Tactic.Ring
 namespace Solverz
-theorem C01_placeholder : True := trivial
+open SEx
+
+/-- the block of scalar expressions one equation contributes -/
+def eqBlock {α} (L : Layout) (e : Ex α) (target : Nat) : Except Err (List (SEx α)) := do
+  let n ← e.size L
+  (List.range (max n target)).mapM fun i => e.lower L (if n = 1 then 0 else i)
+
+/-- **Placement.**  The residual is the concatenation of the equations' blocks in declaration order: the
+block of the first equation occupies offsets `[0, size₀)`, the rest follows. -/
+theorem C01_residual_cons {α} (L : Layout) (e : Ex α) (target : Nat) (es : List (Ex α × Nat)) :
+    (LModel.mk L ((e, target) :: es)).residual = (do
+      let b ← eqBlock L e target
+      let r ← (LModel.mk L es).residual
+      pure (b ++ r)) := by
+  simp only [LModel.residual, eqBlock, List.mapM_cons, bind_assoc, pure_bind]
+  cases h1 : e.size L with
+  | error err => simp [bind, Except.bind]
+  | ok n =>
+    simp only [bind, Except.bind]
+    cases h2 : List.mapM (fun i => Ex.lower L (if n = 1 then 0 else i) e) (List.range (max n target)) with
+    | error err => rfl
+    | ok b =>
+      simp only []
+      cases h3 : List.mapM (fun x : Ex α × Nat => Except.bind (x.1.size L) fun n =>
+          List.mapM (fun i => Ex.lower L (if n = 1 then 0 else i) x.1) (List.range (max n x.2))) es with
+      | error err => simp [pure, Except.pure]
+      | ok parts => simp [pure, Except.pure]
+
+/-- an equation with a vector `diff_var` and a scalar right-hand side has one element per element of the
+`diff_var`, all equal to the scalar (`max(rhs, lhs)` rule) -/
+theorem C01_scalar_rhs_broadcast {α} (L : Layout) (e : Ex α) (target : Nat) (h1 : e.size L = .ok 1) (x : SEx α)
+    (hx : e.lower L 0 = .ok x) : eqBlock L e target = .ok (List.replicate (max 1 target) x) := by
+  simp only [eqBlock, h1, bind, Except.bind, if_true]
+  have key : ∀ n : Nat, List.mapM (fun _ : Nat => Ex.lower L 0 e) (List.range n) = Except.ok (List.replicate n x) := by
+    intro n
+    induction n with
+    | zero => rfl
+    | succ n ih =>
+      rw [List.range_succ, List.mapM_append, ih]
+      simp only [bind, Except.bind, List.mapM_cons, List.mapM_nil, hx, pure, Except.pure]
+      rw [List.replicate_succ']
+  exact key _
+
+/-- **Parameters are read at the call.**  The residual value depends on the parameter vector only through
+the values in the environment of *this* call: environments that agree give the same value, whatever was
+evaluated before (the semantics has no other state). -/
+theorem C01_params_at_call {α} (F : TFld α) (m : LModel α) (ρ ρ' : Env α)
+    (hy : ρ.y = ρ'.y) (hp : ρ.p = ρ'.p) (h0 : ρ.y0 = ρ'.y0) : m.evalF F ρ = m.evalF F ρ' := by
+  cases ρ; cases ρ'; simp_all
+
+/-! ### selections -/
+
+example : Sel.indices 4 10 (.idx (-1)) = .ok [13] := by decide
+example : Sel.indices 4 10 (.slice none (some (-1))) = .ok [10, 11, 12] := by decide
+example : Sel.indices 4 10 (.slice (some (-2)) none) = .ok [12, 13] := by decide
+example : Sel.indices 4 10 (.idx 4) = .error .index := by decide
+
+/-- a whole variable selects its range, an integer index one element of it, a slice a sub-range — all
+inside `[base, base + n)` -/
+theorem C01_selection_within (n base : Nat) (s : Sel) (ix : List Nat) (h : s.indices n base = .ok ix) :
+    ∀ k ∈ ix, base ≤ k ∧ k < base + n := by
+  intro k hk
+  cases s with
+  | whole =>
+    simp only [Sel.indices, Except.ok.injEq] at h; subst h
+    simp only [List.mem_map, List.mem_range] at hk
+    obtain ⟨a, ha, rfl⟩ := hk; omega
+  | idx i =>
+    simp only [Sel.indices, bind, Except.bind] at h
+    cases hn : Heap.normIdx n i with
+    | error e => simp [hn] at h
+    | ok j =>
+      simp only [hn, Except.ok.injEq] at h; subst h
+      simp only [List.mem_singleton] at hk; subst hk
+      unfold Heap.normIdx at hn
+      split at hn
+      · split at hn
+        · cases hn; omega
+        · cases hn
+      · split at hn
+        · cases hn; omega
+        · cases hn
+  | slice a b =>
+    simp only [Sel.indices, Except.ok.injEq] at h; subst h
+    simp only [List.mem_map, List.mem_range] at hk
+    obtain ⟨j, hj, rfl⟩ := hk
+    have := sliceBounds_le' n (a.getD 0) (b.getD n)
+    omega
+
+/-! ### time series -/
+
+/-- at a node the value is the node's value; between two nodes it is the linear interpolant; from the
+last node on it is the last value; before the first node there is no value -/
+theorem C01_timeseries_two (t0 v0 t1 v1 : ℚ) (rest : List (ℚ × ℚ)) (t : ℚ) (h0 : t0 ≤ t) (h1 : t < t1) :
+    tsValue ratO ((t0, v0) :: (t1, v1) :: rest) t = some (v0 + (t - t0) / (t1 - t0) * (v1 - v0)) := by
+  have a : ¬ t < t0 := not_lt.mpr h0
+  simp only [tsValue, ratO, ratFld, a, h1, decide_false, decide_true, Bool.false_eq_true, if_false, if_true, Option.some.injEq]
+  field_simp
+
+theorem C01_timeseries_hold (ts : List (ℚ × ℚ)) (tl vl : ℚ) (t : ℚ) (hsorted : ∀ p ∈ ts, p.1 ≤ tl) (h : tl ≤ t)
+    (hfirst : ∀ p, ts.head? = some p → p.1 ≤ t) :
+    tsValue ratO (ts ++ [(tl, vl)]) t = some vl := by
+  induction ts with
+  | nil => simp [tsValue, ratO, h]
+  | cons p ps ih =>
+    obtain ⟨tp, vp⟩ := p
+    have hp : tp ≤ tl := hsorted (tp, vp) List.mem_cons_self
+    have htp : tp ≤ t := le_trans hp h
+    cases ps with
+    | nil =>
+      have a : ¬ t < tp := not_lt.mpr htp
+      have b : ¬ t < tl := not_lt.mpr h
+      simp [tsValue, ratO, a, b, h]
+    | cons q qs =>
+      obtain ⟨tq, vq⟩ := q
+      have hq : tq ≤ tl := hsorted (tq, vq) (by simp)
+      have a : ¬ t < tp := not_lt.mpr htp
+      have b : ¬ t < tq := not_lt.mpr (le_trans hq h)
+      have := ih (fun r hr => hsorted r (List.mem_cons_of_mem _ hr)) (fun r hr => by simp at hr; subst hr; exact le_trans hq h)
+      simp only [List.cons_append, tsValue, ratO, a, b, decide_false, Bool.false_eq_true, if_false] at this ⊢
+      exact this
+
+theorem C01_timeseries_before (t0 v0 : ℚ) (rest : List (ℚ × ℚ)) (t : ℚ) (h : t < t0) :
+    tsValue ratO ((t0, v0) :: rest) t = none := by
+  cases rest with
+  | nil => simp [tsValue, ratO, not_le.mpr h]
+  | cons q qs => simp [tsValue, ratO, h]
+
 end Solverz
